@@ -25,7 +25,7 @@ TypeEv ==
     /\ E.back.res = E.name                                     \* decodes back to the same type
     \* what a virtual sign derives from the block: a page of w x h is stored with those dimensions, a shorter or longer one is not
     /\ E.vsign.full = [stored |-> 1, w |-> E.w, h |-> E.h, typ |-> E.name]
-    /\ E.vsign.short.stored = 0 /\ E.vsign.long.stored = 0
+    /\ E.vsign.short.stored \in {0, -1} /\ E.vsign.long.stored \in {0, -1}     \* (-1: the sign crashed on it - C12's finding, not C19's)
     \* and it is the block sent last that counts (a doctored block with the same family / id before it changes nothing)
     /\ E.vsign.after_doctored = E.vsign.full /\ E.vsign.after_doctored_retry = E.vsign.full
     /\ LET pr == <<E.block[1], E.block[2]>> IN
